@@ -198,7 +198,7 @@ static void FlattenAudit(size_t i)
 
 #define S (*L[si].s)
 #define M (L[si].m)
-enum { NUM_OPS = 96 };
+enum { NUM_OPS = 76 };
 
 static void RunCase(long k, uint64_t cs)
 {
@@ -209,7 +209,7 @@ static void RunCase(long k, uint64_t cs)
    const uint32 nobj = 1 + R(3);
    for (uint32 i = 0; i < nobj; i++) { Obj o; o.m = R(2) ? GenStr(GenLen(0)) : std::string(); o.s = new String(o.m.c_str()); L.push_back(o); }
    const uint32 nops = 40 + R(261);
-   long i2h = 0, h2i = 0, aliasOps = 0, atCap = 0; uint32 maxLen = 0; int si = 0; bool rebuilt = false;
+   long i2h = 0, h2i = 0, aliasOps = 0, atCap = 0; uint32 maxLen = 0; int si = 0, argSi = 0, argPending = 0; bool rebuilt = false;
 
    // ---- operands.  val always receives a detached copy of the operand's value, taken before the operation
    auto Other = [&]() -> int { int j = (int)R((uint32)L.size() - 1); return j >= si ? j + 1 : j; };
@@ -239,9 +239,11 @@ static void RunCase(long k, uint64_t cs)
 
    for (uint32 it = 0; it < nops && !caseBad; it++) {
       si = (int)R((uint32)L.size()); rebuilt = false;
+      int o = (int)R(NUM_OPS); bool forcedArg = false;
+      if (argPending > 0 && R(10) < 8) { si = argSi; o = 44; argPending--; forcedArg = true; }   // an Arg chain usually follows its format
+      if (big && M.size() < 4500 && R(6) == 0) { std::string v = GenStr(500 + R(2500)); OP("bulk_append %zu", v.size()); S += v.c_str(); M += v; }
       bool inl[3]; for (size_t j = 0; j < L.size(); j++) inl[j] = IsInline(*L[j].s);
-      int o = (int)R(NUM_OPS);
-      if (M.size() > (big ? 6000u : 70u) && R(3) == 0) { static const int shrink[] = {0, 2, 3, 60, 61, 63, 64}; o = shrink[R(7)]; }
+      if (!forcedArg && M.size() > (big ? 6000u : 70u) && R(3) == 0) { static const int shrink[] = {0, 2, 3, 60, 61, 63, 64}; o = shrink[R(7)]; }
       switch (o) {
       // ---------------- assignment, construction, move, swap
       case 0: { CBuf b; std::string v; const char * p = CArg(v, b, true); OP("assign_cstr %s", Q(v, 24).c_str()); S = p; M = v; } break;
@@ -347,11 +349,12 @@ static void RunCase(long k, uint64_t cs)
       // ---------------- Arg
       case 43: { uint32 m = 1 + R(R(3) == 0 ? 12 : 4); std::vector<uint32> ord; for (uint32 i = 1; i <= m; i++) ord.push_back(i); for (uint32 i = 0; i < m; i++) std::swap(ord[i], ord[R(m)]); if (R(4) == 0) ord.push_back(ord[R(m)]);   // a number may occur twice
                 std::string fm; for (size_t i = 0; i < ord.size(); i++) { std::string lit = GenStr(R(4)); for (size_t j = 0; j < lit.size(); j++) if (lit[j] == '%' || isdig(lit[j])) lit[j] = '_'; fm += lit; fm += vh::fmt("%%%u", ord[i] - (R(10) == 0 ? 1 : 0)); } if (R(2)) fm += "z";
-                OP("ArgFormat %s", Q(fm, 60).c_str()); S = fm.c_str(); M = fm; vh::stat("arg_formats"); if (m >= 10) vh::stat("arg_formats_ten_or_more_placeholders"); } break;
-      case 44: case 45: case 46: { std::string v = GenStr(R(5)), w; size_t nn = 0; int f = (int)R(8); long num = (long)R(2000) - 500;
+                OP("ArgFormat %s", Q(fm, 60).c_str()); S = fm.c_str(); M = fm; vh::stat("arg_formats"); if (m >= 10) vh::stat("arg_formats_ten_or_more_placeholders"); argSi = si; argPending = (int)m; } break;
+      case 44: case 45: case 46: { std::string v = GenStr(R(5)), w; size_t nn = 0; int f = (int)R(forcedArg ? 3 : 8); long num = (long)R(2000) - 500; if (forcedArg) for (size_t i = 0; i < v.size(); i++) if (v[i] == '%' || isdig(v[i])) v[i] = '_';
                 if (f == 3) v = vh::fmt("%i", (int)num); else if (f == 4) v = vh::fmt("%u", (unsigned)R(100000)); else if (f == 5) v = vh::fmt("%lld", (long long)num * 1000003LL); else if (f == 6) v = (num & 1) ? "true" : "false"; else if (f == 7) v = vh::fmt("%i", (int)(char)('a' + (num & 15)));
                 OP("Arg form=%d %s", f, Q(v).c_str());
                 bool spec = rArg(M, v, w, nn) && (nn <= 1 || ArgValueOk(v)); if (nn) vh::stat("arg_substitutions");
+                if (spec && nn > 1) { for (int lo = 0; lo < 10; lo++) { std::string tk = vh::fmt("%%%d", lo); size_t at = M.find(tk); bool exact = false, longer = false; while (at != std::string::npos) { if (at + 2 < M.size() + 0 && at + 2 <= M.size() - 1 && isdig(M[at + 2])) longer = true; else exact = true; at = M.find(tk, at + 1); } if (exact) { if (longer) vh::stat("arg_substitutions_with_longer_token_sharing_the_prefix"); break; } } }
                 String r; CBuf cb;
                 switch (f) { case 0: case 1: r = S.Arg(cb.set(v)); break; case 2: r = S.Arg(String(v.c_str())); break; case 3: r = S.Arg((int)num); break; case 4: r = S.Arg((unsigned)atol(v.c_str())); break; case 5: r = S.Arg((long long)num * 1000003LL); break; case 6: r = S.Arg((bool)(num & 1)); break; default: r = S.Arg((char)('a' + (num & 15))); break; }
                 if (!spec) { vh::stat("unspecified_arg_outside_repertoire"); if (!SameS(r, std::string(r()))) Fail("result is not a valid string"); break; }
@@ -362,7 +365,7 @@ static void RunCase(long k, uint64_t cs)
                 if (f == 0) Res(S.WithSuffix(a), ends ? M : M + v, "WithSuffix(String)"); else if (f == 1) Res(S.WithPrefix(a), starts ? M : v + M, "WithPrefix(String)");
                 else if (f == 2) Res(S.WithSuffix(c), (M.size() && M[M.size() - 1] == c) ? M : M + c, "WithSuffix(char)"); else Res(S.WithPrefix(c), (M.size() && M[0] == c) ? M : c + M, "WithPrefix(char)"); } break;
       case 49: case 50: case 51: { String t; std::string v; const String & a = SArg(v, t); uint32 n = Cnt(); bool ic = R(3) == 0, suffix = R(2), isChar = R(3) == 0; char ch = (M.size() && R(4)) ? (suffix ? M[M.size() - 1] : M[0]) : GenChar(); if (ic && R(2)) ch = Flip(ch);
-                if (isChar) v = std::string(1, ch); else if (R(3) == 0 && !v.empty() && v.size() * 3 <= maxGrow && M.size() < 100) { /* make repeats likely */ }
+                if (isChar) v = std::string(1, ch);
                 OP("Without%s%s%s max=%u %s", suffix ? "Suffix" : "Prefix", ic ? "IgnoreCase" : "", isChar ? "_char" : "", n, Q(v, 24).c_str());
                 std::string w = M, lv = ic ? lower(v) : v; uint32 c = 0;
                 while (!v.empty() && c < n && w.size() >= v.size() && (ic ? lower(suffix ? w.substr(w.size() - v.size()) : w.substr(0, v.size())) : (suffix ? w.substr(w.size() - v.size()) : w.substr(0, v.size()))) == lv) { if (suffix) w.resize(w.size() - v.size()); else w.erase(0, v.size()); c++; }
@@ -370,8 +373,161 @@ static void RunCase(long k, uint64_t cs)
                 String r = isChar ? (suffix ? (ic ? S.WithoutSuffixIgnoreCase(ch, n) : S.WithoutSuffix(ch, n)) : (ic ? S.WithoutPrefixIgnoreCase(ch, n) : S.WithoutPrefix(ch, n)))
                                   : (suffix ? (ic ? S.WithoutSuffixIgnoreCase(a, n) : S.WithoutSuffix(a, n)) : (ic ? S.WithoutPrefixIgnoreCase(a, n) : S.WithoutPrefix(a, n)));
                 Res(r, w, "WithoutPrefix/Suffix"); } break;
-      case 52: case 53: { OP("NumericSuffix"); size_t e = M.size(); while (e > 0 && isdig(M[e - 1])) e--; std::string dig = M.substr(e); uint32 got = 123, def = R(1000);
-                String r = S.WithoutNumericSuffix(R(4) ? &got : NULL); uint32 ps = S.ParseNumericSuffix(def);
-                if (dig.size() > 9) vh::stat("unspecified_numeric_suffix_overflow"); else { uint32 val = dig.empty() ? 0 : (uint32)strtoul(dig.c_str(), NULL, 10); if (got != 123 || dig.size()) EqI(got == 123 && dig.empty() ? 0 : got, val, "WithoutNumericSuffix value"); EqI(ps, dig.empty() ? def : val, "ParseNumericSuffix"); if (dig.size()) vh::stat("numeric_suffixes_parsed"); }
+      case 52: case 53: { OP("NumericSuffix"); size_t e = M.size(); while (e > 0 && isdig(M[e - 1])) e--; std::string dig = M.substr(e); uint32 got = 123, def = R(1000); bool passed = R(4);
+                String r = S.WithoutNumericSuffix(passed ? &got : NULL); uint32 ps = S.ParseNumericSuffix(def);
+                if (dig.size() > 9) vh::stat("unspecified_numeric_suffix_overflow"); else { uint32 val = dig.empty() ? 0 : (uint32)strtoul(dig.c_str(), NULL, 10); if (passed) EqI(got, val, "WithoutNumericSuffix value"); EqI(ps, dig.empty() ? def : val, "ParseNumericSuffix"); if (dig.size()) vh::stat("numeric_suffixes_parsed"); }
                 Res(r, M.substr(0, e), "WithoutNumericSuffix"); } break;
-//@@OPS3@@
+      // ---------------- comparisons and searches
+      case 54: case 55: { String t; std::string v; CBuf cb; bool viaC = R(2); const char * p = NULL; const String * a = NULL; if (viaC) p = CArg(v, cb, true); else a = &SArg(v, t);
+                if (R(4) == 0) { v = M; if (v.size() && R(2)) v[R((uint32)v.size())] = GenChar(); else if (R(2)) v += GenChar(); else if (v.size()) v[R((uint32)v.size())] = Flip(v[R((uint32)v.size())]); t = v.c_str(); a = &t; p = cb.set(v); }
+                OP(viaC ? "compare_cstr %s" : "compare_String %s", Q(v, 24).c_str()); int c = M.compare(v), ci = lower(M).compare(lower(v)); if (c == 0) vh::stat("compared_equal");
+                if (viaC) { EqI(S == p, c == 0, "=="); EqI(S != p, c != 0, "!="); EqI(S < p, c < 0, "<"); EqI(S > p, c > 0, ">"); EqI(S <= p, c <= 0, "<="); EqI(S >= p, c >= 0, ">="); EqI(Sgn(S.CompareTo(p)), Sgn(c), "CompareTo sign"); EqI(S.Equals(p), c == 0, "Equals"); EqI(S.EqualsIgnoreCase(p), ci == 0, "EqualsIgnoreCase"); EqI(Sgn(S.CompareToIgnoreCase(p)), Sgn(ci), "CompareToIgnoreCase sign"); }
+                else { EqI(S == *a, c == 0, "=="); EqI(S != *a, c != 0, "!="); EqI(S < *a, c < 0, "<"); EqI(S > *a, c > 0, ">"); EqI(S <= *a, c <= 0, "<="); EqI(S >= *a, c >= 0, ">="); EqI(Sgn(S.CompareTo(*a)), Sgn(c), "CompareTo sign"); EqI(S.Equals(*a), c == 0, "Equals"); EqI(S.EqualsIgnoreCase(*a), ci == 0, "EqualsIgnoreCase"); EqI(Sgn(S.CompareToIgnoreCase(*a)), Sgn(ci), "CompareToIgnoreCase sign"); } } break;
+      case 56: case 57: case 58: { uint32 from = R(3) == 0 ? 0 : R((uint32)M.size() + 3); int kind = (int)R(3); std::string lm = lower(M);
+                if (kind == 2) { char c = (M.size() && R(3)) ? M[R((uint32)M.size())] : GenChar(); if (R(3) == 0) c = Flip(c); OP("IndexOf_char %02x from=%u", (unsigned char)c, from);
+                   size_t f = from <= M.size() ? M.find(c, from) : std::string::npos, l = M.rfind(c); long fi = f == std::string::npos ? -1 : (long)f, li = (l != std::string::npos && l >= from) ? (long)l : -1;
+                   size_t fl = from <= M.size() ? lm.find(lc(c), from) : std::string::npos, ll = lm.rfind(lc(c)); long fli = fl == std::string::npos ? -1 : (long)fl, lli = (ll != std::string::npos && ll >= from) ? (long)ll : -1; if (fi >= 0) vh::stat("searches_found");
+                   EqI(S.IndexOf(c, from), fi, "IndexOf(char,from)"); EqI(S.Contains(c, from), fi >= 0, "Contains(char,from)"); EqI(S.LastIndexOf(c, from), li, "LastIndexOf(char,from)");
+                   EqI(S.IndexOfIgnoreCase(c, from), fli, "IndexOfIgnoreCase(char,from)"); EqI(S.ContainsIgnoreCase(c, from), fli >= 0, "ContainsIgnoreCase(char,from)"); EqI(S.LastIndexOfIgnoreCase(c, from), lli, "LastIndexOfIgnoreCase(char,from)"); break; }
+                String t; std::string v; CBuf cb; bool viaC = (kind == 1); const char * p = NULL; const String * a = NULL; if (viaC) p = CArg(v, cb, false); else a = &SArg(v, t);
+                if (v.size() > 3 && R(2)) { v.resize(1 + R(3)); t = v.c_str(); a = &t; p = cb.set(v); }   // short needles are found more often
+                OP(viaC ? "IndexOf_cstr from=%u %s" : "IndexOf_String from=%u %s", from, Q(v, 24).c_str());
+                if (v.empty()) {   // empty needle: undocumented, differs from std::string -> not compared
+                   vh::stat("unspecified_empty_needle"); int x = viaC ? S.IndexOf(p, from) + S.LastIndexOf(p) + S.LastIndexOf(p, from) + S.IndexOfIgnoreCase(p, from) + S.LastIndexOfIgnoreCase(p, from) : S.IndexOf(*a, from) + S.LastIndexOf(*a) + S.LastIndexOf(*a, from) + S.IndexOfIgnoreCase(*a, from) + S.LastIndexOfIgnoreCase(*a, from); (void)x; break; }
+                std::string lv = lower(v);
+                size_t f = from <= M.size() ? M.find(v, from) : std::string::npos, l = M.rfind(v), lb = M.rfind(v, from); long fi = f == std::string::npos ? -1 : (long)f, li = l == std::string::npos ? -1 : (long)l;
+                long liA = (l != std::string::npos && l >= from) ? (long)l : -1, liB = lb == std::string::npos ? -1 : (long)lb;   // two readings of LastIndexOf(str,fromIndex): "at or after" (summary line) vs. searching backwards from fromIndex (parameter text, Java)
+                size_t fl = from <= M.size() ? lm.find(lv, from) : std::string::npos, ll = lm.rfind(lv); long fli = fl == std::string::npos ? -1 : (long)fl, lli = (ll != std::string::npos && ll >= from) ? (long)ll : -1; if (fi >= 0) vh::stat("searches_found");
+                long g1, g2, g3, g4, g5, g6, g7;
+                if (viaC) { g1 = S.IndexOf(p, from); g2 = S.Contains(p, from); g3 = S.LastIndexOf(p); g4 = S.LastIndexOf(p, from); g5 = S.IndexOfIgnoreCase(p, from); g6 = S.ContainsIgnoreCase(p, from); g7 = S.LastIndexOfIgnoreCase(p, from); }
+                else { g1 = S.IndexOf(*a, from); g2 = S.Contains(*a, from); g3 = S.LastIndexOf(*a); g4 = S.LastIndexOf(*a, from); g5 = S.IndexOfIgnoreCase(*a, from); g6 = S.ContainsIgnoreCase(*a, from); g7 = S.LastIndexOfIgnoreCase(*a, from); }
+                EqI(g1, fi, "IndexOf(str,from)"); EqI(g2, fi >= 0, "Contains(str,from)"); EqI(g3, li, "LastIndexOf(str)");
+                if (liA == liB) EqI(g4, liA, "LastIndexOf(str,from)"); else { vh::stat("unspecified_LastIndexOf_str_fromIndex_direction"); if (g4 != liA && g4 != liB) EqI(g4, liB, "LastIndexOf(str,from) (neither reading)"); }
+                EqI(g5, fli, "IndexOfIgnoreCase(str,from)"); EqI(g6, fli >= 0, "ContainsIgnoreCase(str,from)"); EqI(g7, lli, "LastIndexOfIgnoreCase(str,from)"); } break;
+      case 59: { String t; std::string v; CBuf cb; int kind = (int)R(3); const char * p = NULL; const String * a = &t; if (kind == 1) p = CArg(v, cb, true); else if (kind == 0) a = &SArg(v, t);
+                if (kind != 2 && R(2)) { bool pre = R(2); uint32 n = R((uint32)M.size() + 1) % 6; v = pre ? M.substr(0, n) : M.substr(M.size() - std::min((size_t)n, M.size())); if (R(3) == 0) for (size_t i = 0; i < v.size(); i++) v[i] = Flip(v[i]); t = v.c_str(); a = &t; p = cb.set(v); }
+                char c = (M.size() && R(4)) ? (R(2) ? M[0] : M[M.size() - 1]) : GenChar(); if (R(4) == 0) c = Flip(c); if (kind == 2) v = std::string(1, c);
+                OP("StartsEndsWith kind=%d %s", kind, Q(v, 24).c_str()); std::string lm = lower(M), lv = lower(v);
+                bool sw = M.size() >= v.size() && M.compare(0, v.size(), v) == 0, ew = M.size() >= v.size() && M.compare(M.size() - v.size(), v.size(), v) == 0, swi = M.size() >= v.size() && lm.compare(0, v.size(), lv) == 0, ewi = M.size() >= v.size() && lm.compare(M.size() - v.size(), v.size(), lv) == 0;
+                if (sw || ew) vh::stat("affix_tests_true");
+                if (kind == 2) { EqI(S.StartsWith(c), sw, "StartsWith(char)"); EqI(S.EndsWith(c), ew, "EndsWith(char)"); EqI(S.StartsWithIgnoreCase(c), swi, "StartsWithIgnoreCase(char)"); EqI(S.EndsWithIgnoreCase(c), ewi, "EndsWithIgnoreCase(char)"); }
+                else if (kind == 1) { EqI(S.StartsWith(p), sw, "StartsWith(cstr)"); EqI(S.EndsWith(p), ew, "EndsWith(cstr)"); EqI(S.StartsWithIgnoreCase(p), swi, "StartsWithIgnoreCase(cstr)"); EqI(S.EndsWithIgnoreCase(p), ewi, "EndsWithIgnoreCase(cstr)"); }
+                else { EqI(S.StartsWith(*a), sw, "StartsWith(String)"); EqI(S.EndsWith(*a), ew, "EndsWith(String)"); EqI(S.StartsWithIgnoreCase(*a), swi, "StartsWithIgnoreCase(String)"); EqI(S.EndsWithIgnoreCase(*a), ewi, "EndsWithIgnoreCase(String)"); } } break;
+      // ---------------- length and buffer management
+      case 60: { uint32 n = R(2) ? BoundaryLen() : R((uint32)M.size() + 3); OP("TruncateToLength %u", n); S.TruncateToLength(n); if (M.size() > n) M.resize(n); } break;
+      case 61: { uint32 tl = BoundaryLen(), n = (R(2) && M.size() > tl) ? (uint32)M.size() - tl : R(20); OP("TruncateChars %u", n); S.TruncateChars(n); M.resize(M.size() - std::min((size_t)n, M.size())); } break;
+      case 62: case 74: { uint32 n = GenLen((uint32)M.size()); OP("Prealloc %u", n); Ok(S.Prealloc(n), "Prealloc"); if (S.GetNumAllocatedBytes() < n + 1) Fail(vh::fmt("GetNumAllocatedBytes() %u after Prealloc(%u)", S.GetNumAllocatedBytes(), n)); } break;
+      case 63: { if (R(2)) { OP("Clear"); S.Clear(); } else { OP("ClearAndFlush"); S.ClearAndFlush(); } M.clear(); } break;
+      case 64: { uint32 b0 = M.size() ? R((uint32)M.size()) : 0, n = BoundaryLen(); OP("self=Substring %u %u", b0, b0 + n); if (R(2)) S = S.Substring(b0, b0 + n); else Ok(S.SetFromString(S, b0, b0 + n), "SetFromString(self)"); M = rSub(M, b0, b0 + n); } break;
+      case 65: case 73: { uint32 len = (uint32)M.size(), tb = CAP + 1 + R(5) - 2, ex = R(3) == 0 ? 0 : R(2) ? R(4) : (tb > len + 1 ? tb - (len + 1) : 0); OP("ShrinkToFit extra=%u", ex); Ok(S.ShrinkToFit(ex), "ShrinkToFit"); if (S.GetNumAllocatedBytes() < len + 1 + ex) Fail(vh::fmt("GetNumAllocatedBytes() %u after ShrinkToFit(%u) with Length %u", S.GetNumAllocatedBytes(), ex, len)); } break;
+      case 66: { OP("Reverse"); S.Reverse(); std::reverse(M.begin(), M.end()); } break;
+      case 67: { if (M.empty()) break; uint32 at = R(4) == 0 ? (uint32)M.size() - 1 : R((uint32)M.size()); char c = GenChar(); OP("op[]= at=%u %02x", at, (unsigned char)c); S[at] = c; M[at] = c; } break;
+      case 68: { String t; std::string v; CBuf cb; int kind = (int)R(3); const char * p = NULL; const String * a = &t; uint32 from = R(3) ? 0 : R((uint32)M.size() + 3); if (kind == 1) p = CArg(v, cb, true); else a = &SArg(v, t);
+                if (v.size() > 2 && R(2)) { v.resize(1 + R(2)); t = v.c_str(); a = &t; p = cb.set(v); }
+                char c = (M.size() && R(4)) ? M[R((uint32)M.size())] : GenChar(); OP("GetNumInstancesOf kind=%d from=%u %s", kind, from, Q(v, 24).c_str());
+                if (kind == 2) { long w = 0; for (size_t i = from; i < M.size(); i++) if (M[i] == c) w++; EqI(S.GetNumInstancesOf(c, from), w, "GetNumInstancesOf(char,from)"); break; }
+                long w1 = rCount(M, v, from, false), w2 = rCount(M, v, from, true); long got = kind == 1 ? S.GetNumInstancesOf(p, from) : S.GetNumInstancesOf(*a, from); if (w1) vh::stat("instances_counted", w1);
+                if (w1 == w2) EqI(got, w1, "GetNumInstancesOf(str,from)"); else { vh::stat("unspecified_instances_overlapping"); if (got != w1 && got != w2) EqI(got, w1, "GetNumInstancesOf(str,from) (neither overlapping nor non-overlapping count)"); } } break;
+      case 69: { OP("hash"); String fresh(M.c_str()); String roomy(S, PreallocatedItemSlotsCount(40 + R(40)));
+                EqI(S.HashCode(), fresh.HashCode(), "HashCode vs fresh copy"); EqI((long)(S.HashCode64() == fresh.HashCode64()), 1, "HashCode64 vs fresh copy"); EqI(S.CalculateChecksum(), fresh.CalculateChecksum(), "CalculateChecksum vs fresh copy"); EqI(roomy.HashCode(), fresh.HashCode(), "HashCode of a preallocated copy");
+                EqI(S == fresh && fresh == S && roomy == S && !(S != fresh) && S.Equals(roomy), 1, "equality with copies in other storage modes"); } break;
+      case 70: { String t; std::string v; CBuf cb; bool viaC = R(2); const char * p = NULL; const String * a = &t; if (viaC) p = CArg(v, cb, true); else a = &SArg(v, t);
+                if (R(3) == 0) { v = M; for (uint32 e = 0; e < 1 + R(3) && !v.empty(); e++) { uint32 at = R((uint32)v.size()); if (R(3) == 0) v.erase(at, 1); else if (R(2)) v.insert(at, 1, GenChar()); else v[at] = GenChar(); } t = v.c_str(); a = &t; p = cb.set(v); }
+                if (v.size() > 150 || M.size() > 150) break; uint32 mx = R(3) == 0 ? NOLIM : R(12); OP(mx == NOLIM ? "GetDistanceTo %s" : "GetDistanceTo_maxResult %s max=%u", Q(v, 24).c_str(), mx);
+                uint32 d = rLev(M, v), want = std::min(d, mx), got = viaC ? S.GetDistanceTo(p, mx) : S.GetDistanceTo(*a, mx);
+                if (got != want) { if (mx == NOLIM) Fail(vh::fmt("distance from %s: got %u want %u", Q(M).c_str(), got, want));
+                                   else { vh::stat("GetDistanceTo_maxResult_wrong"); vh::viol("model|GetDistanceTo_maxResult", vh::fmt("String(%s).GetDistanceTo(%s, %u) returned %u; the distance is %u, so min(distance, maxResult) = %u", Q(M).c_str(), Q(v).c_str(), mx, got, d, want)); } } } break;
+      case 71: { OP("accessors"); uint32 len = (uint32)M.size(); EqI(S.IsEmpty(), M.empty(), "IsEmpty"); EqI(S.HasChars(), !M.empty(), "HasChars"); EqI(S.GetLastValidIndex(), (long)len - 1, "GetLastValidIndex"); EqI(S.IsIndexValid(len), 0, "IsIndexValid(Length())"); EqI(S.FlattenedSize(), len + 1, "FlattenedSize");
+                if (len) { uint32 at = R(len); EqI(S.IsIndexValid(len - 1), 1, "IsIndexValid(Length()-1)"); EqI((unsigned char)S.CharAt(at), (unsigned char)M[at], "CharAt"); EqI((unsigned char)const_cast<const String &>(S)[at], (unsigned char)M[at], "operator[] const"); EqI(S.IsCharInLocalArray(S() + at), 1, "IsCharInLocalArray(own)"); EqI(S.Equals(M[0]), len == 1, "Equals(char)"); EqI(S.EqualsIgnoreCase(Flip(M[0])), len == 1, "EqualsIgnoreCase(char)"); }
+                static const char outside[] = "x"; EqI(S.IsCharInLocalArray(outside), 0, "IsCharInLocalArray(foreign)");
+                bool neg = R(2); EqI(S.StartsWithNumber(neg), len && (isdig(M[0]) || (neg && M[0] == '-' && len > 1 && isdig(M[1]))), "StartsWithNumber"); } break;
+      case 72: { std::string p1; for (size_t i = 0; i < M.size() && p1.size() < 4; i++) if ((M[i] >= 'a' && M[i] <= 'z') || (M[i] >= 'A' && M[i] <= 'Z')) p1 += M[i]; long v1 = R(2000), v2 = R(4) ? R(2000) : v1; std::string x = p1 + vh::fmt("%ld", v1), y = p1 + vh::fmt("%ld", v2), yi = p1; for (size_t i = 0; i < yi.size(); i++) yi[i] = Flip(yi[i]); yi += vh::fmt("%ld", v2);
+                OP("NumericAwareCompareTo %s %s", Q(x).c_str(), Q(y).c_str()); S = x.c_str(); M = x; String Y(y.c_str());
+                EqI(Sgn(S.NumericAwareCompareTo(Y)), Sgn(v1 - v2), "NumericAwareCompareTo(String) sign"); EqI(Sgn(S.NumericAwareCompareTo(y.c_str())), Sgn(v1 - v2), "NumericAwareCompareTo(cstr) sign"); EqI(Sgn(S.NumericAwareCompareTo(S)), 0, "NumericAwareCompareTo(self)");
+                if (v1 != v2) { EqI(Sgn(S.NumericAwareCompareToIgnoreCase(yi.c_str())), Sgn(v1 - v2), "NumericAwareCompareToIgnoreCase sign"); EqI(Sgn(S.NumericAwareCompareToIgnoreCase(String(yi.c_str()))), Sgn(v1 - v2), "NumericAwareCompareToIgnoreCase(String) sign"); } } break;
+      default: { char c = (M.size() && R(2)) ? M[0] : GenChar(); OP("Equals_char %02x", (unsigned char)c); EqI(S.Equals(c), M.size() == 1 && M[0] == c, "Equals(char)"); EqI(S.EqualsIgnoreCase(c), M.size() == 1 && lc(M[0]) == lc(c), "EqualsIgnoreCase(char)"); } break;
+      }
+      // ---------------- after every operation
+      for (size_t j = 0; j < L.size(); j++) Audit(j);
+      if (!caseBad && (it % 10) == 9) FlattenAudit((size_t)si);
+      if (caseBad) break;
+      for (size_t j = 0; j < L.size(); j++) { if (rebuilt && (int)j == si) continue; bool now = IsInline(*L[j].s); if (inl[j] && !now) i2h++; else if (!inl[j] && now) h2i++; }
+      uint32 len = (uint32)M.size(); if (len > maxLen) maxLen = len; if (len == CAP) { atCap++; vh::stat("ops_ending_at_exactly_cap"); } else if (len == CAP + 1) vh::stat("ops_ending_at_cap_plus_1"); else if (len + 1 == CAP) vh::stat("ops_ending_at_cap_minus_1");
+      if (len > 9000) { OP("reset_big"); S.Clear(); M.clear(); }
+   }
+   vh::stat("transitions_inline_to_heap", i2h); vh::stat("transitions_heap_to_inline", h2i); vh::stat("aliased_operands", aliasOps);
+   if (i2h) vh::stat("cases_with_inline_to_heap"); if (h2i) vh::stat("cases_with_heap_to_inline"); if (big) vh::stat("cases_big"); vh::statmax("max_length", maxLen); vh::stat(vh::fmt("cases_alphabet_%d", flavour)); vh::stat(vh::fmt("cases_with_%zu_objects", L.size()));
+   vh::distinct(vh::fnv(&cs, sizeof(cs)), i2h > 0 && h2i > 0 && aliasOps > 0);
+   if (vh::want_sample() && !trace.empty()) { std::string s; for (size_t i = 0; i < trace.size() && i < 14; i++) { s += trace[i]; s += "; "; } vh::sample(vh::fmt("case %ld (%zu objects, alphabet %d): ", k, L.size(), flavour) + s + "..."); }
+   for (size_t j = 0; j < L.size(); j++) delete L[j].s;
+   L.clear();
+}
+#undef S
+#undef M
+
+// ------------------------------------------------------------------ fixed witnesses and documentation examples
+static void RChk(bool ok, const char * key, const std::string & detail) { vh::stat("regress_checks"); if (!ok) vh::viol(std::string("regress-") + key, detail); }
+static void REq(const String & got, const char * want, const char * key, const char * what) { RChk(SameS(got, want), key, vh::fmt("%s: got %s want %s", what, Q(got()).c_str(), Q(want).c_str())); }
+static void Regress()
+{
+   vh::begin_case(0);
+   { // F18: unterminated and empty input must be rejected by Unflatten
+      uint8 * b3 = (uint8 *)malloc(3); memcpy(b3, "abc", 3); String s("old"); status_t r = s.UnflattenFromBytes(b3, 3); RChk(r.IsError(), "F18", "Unflatten of the 3 unterminated bytes 'abc' returned OK"); free(b3);
+      uint8 * b17 = (uint8 *)malloc(17); memset(b17, 'q', 17); String t; r = t.UnflattenFromBytes(b17, 17); RChk(r.IsError(), "F18", "Unflatten of 17 unterminated bytes returned OK"); free(b17);
+      uint8 * b0 = (uint8 *)malloc(1); String u("old"); r = u.UnflattenFromBytes(b0, 0); RChk(r.IsError(), "F18", "Unflatten of a 0-byte buffer returned OK"); free(b0);
+      DataUnflattener un((const uint8 *)"xy", 2); String v; RChk(v.Unflatten(un).IsError(), "F18", "Unflatten(DataUnflattener over 2 unterminated bytes) returned OK");
+      const uint8 good[] = {'h', 'i', 0}; String w; RChk(w.UnflattenFromBytes(good, 3).IsOK() && SameS(w, "hi"), "F18", "Unflatten of 'hi\\0' failed");
+      const uint8 nul[] = {0}; String e("old"); RChk(e.UnflattenFromBytes(nul, 1).IsOK() && SameS(e, ""), "F18", "Unflatten of a single NUL byte must give the empty String");
+   }
+   vh::begin_case(1);
+   { // F28: Arg chain over ten or more placeholders
+      String f("%1 %2 %3 %4 %5 %6 %7 %8 %9 %10 %11"); const char * v[] = {"a", "b", "c", "d", "e", "f", "g", "h", "i", "j", "k"}; for (int i = 0; i < 11; i++) f = f.Arg(v[i]);
+      REq(f, "a b c d e f g h i j k", "F28", "Arg chain %1..%11");
+      String h("%10-%1-%11-%2"); h = h.Arg("A"); REq(h, "%10-A-%11-%2", "F28", "first Arg on %10-%1-%11-%2"); h = h.Arg("B").Arg("C").Arg("D"); REq(h, "C-A-D-B", "F28", "Arg chain on %10-%1-%11-%2");
+   }
+   vh::begin_case(2);
+   { // F29: simultaneous table replacement with overlapping candidates
+      { Hashtable<String, String> t; (void)t.Put("aab", "X"); REq(String("aaab").WithReplacements(t), "aX", "F29", "{aab->X} on aaab"); String m("aaab"); RChk(m.Replace(t) == 1 && SameS(m, "aX"), "F29", "Replace({aab->X}) on aaab: count/result"); }
+      { Hashtable<String, String> t; (void)t.Put("bb", "B"); (void)t.Put("-b", "1"); REq(String("a-bbb-").WithReplacements(t), "a1B-", "F29", "{bb->B,-b->1} on a-bbb-"); }
+      { Hashtable<String, String> t; (void)t.Put("abab", "X"); REq(String("ababab abaabab").WithReplacements(t), "Xab abaX", "F29", "{abab->X} on 'ababab abaabab'"); }
+      { Hashtable<String, String> t; (void)t.Put("1", "2"); (void)t.Put("2", "3"); REq(String("1,2,3,4").WithReplacements(t), "2,3,3,4", "F29", "String.h example {1->2,2->3} on 1,2,3,4"); REq(String("1,2,3,4").WithReplacements("1", "2").WithReplacements("2", "3"), "3,3,3,4", "docex", "chained single replacements"); }
+      { Hashtable<String, String> t; (void)t.Put("ab", "1"); (void)t.Put("abc", "2"); REq(String("abcabc").WithReplacements(t), "1c1c", "docex", "prefix key: first in iteration order wins"); Hashtable<String, String> u; (void)u.Put("abc", "2"); (void)u.Put("ab", "1"); REq(String("abcabd").WithReplacements(u), "21d", "docex", "prefix key: first in iteration order wins (longer first)"); }
+   }
+   vh::begin_case(3);
+   { // documentation examples of String.h
+      REq(String("this is a test").Substring("is a"), " test", "docex", "Substring(\"is a\")");
+      REq(String("this is a test").Substring(1, "is a"), "his ", "docex", "Substring(1,\"is a\")");
+      REq(String("%1 is a %2").Arg(13).Arg("bakers dozen"), "13 is a bakers dozen", "docex", "Arg(13).Arg(\"bakers dozen\")");
+      RChk(String("Joe-54").ParseNumericSuffix() == 54, "docex", "ParseNumericSuffix(Joe-54) != 54");
+      { uint32 v = 0; REq(String("Joe-54").WithoutNumericSuffix(&v), "Joe-", "docex", "WithoutNumericSuffix(Joe-54): the minus is not part of the suffix (the note is the specification)"); RChk(v == 54, "docex", "WithoutNumericSuffix value"); }
+      { String s("string"); s.Reverse(); REq(s, "gnirts", "docex", "Reverse"); }
+      { String s("abc"); s.TruncateChars(99); REq(s, "", "docex", "TruncateChars beyond the length empties the String"); }
+      REq(String("abc").WithInsert(99, "X"), "abcX", "docex", "WithInsert beyond the end appends");
+      REq(String("abcabc") - "bc", "abca", "docex", "operator- removes the last instance");
+      { String s("x"); s << 5 << true << 1.5f; REq(s, "x5true1.50", "docex", "operator<< int/bool/float(2 decimals)"); }
+      REq(String("v=%1").Arg(2.5), "v=2.5", "docex", "Arg(double) drops trailing zeroes"); REq(String("v=%1").Arg(3.0), "v=3", "docex", "Arg(double) drops the decimal point"); REq(String("v=%1").Arg(3.0, 2), "v=3.00", "docex", "Arg(double,minDigits=2)"); REq(String("v=%1").Arg(true), "v=true", "docex", "Arg(bool)");
+   }
+   vh::begin_case(4);
+   { // deterministic sweep over every length around the inline capacity and its doubles
+      for (uint32 n = 0; n <= 4 * CAP + 8; n++) { std::string m(n, 'x'); for (uint32 i = 0; i < n; i++) m[i] = (char)('a' + i % 26);
+         for (uint32 ex = 0; ex < 4; ex++) { String s(m.c_str()); (void)s.Prealloc(100); (void)s.ShrinkToFit(ex); RChk(SameS(s, m), "sweep", vh::fmt("Prealloc(100)+ShrinkToFit(%u) at length %u", ex, n)); s += 'Z'; RChk(SameS(s, m + "Z"), "sweep", vh::fmt("+=char after ShrinkToFit(%u) at length %u", ex, n)); (void)s.ShrinkToFit(); s.TruncateChars(1); (void)s.ShrinkToFit(ex); RChk(SameS(s, m), "sweep", vh::fmt("truncate+ShrinkToFit(%u) back to length %u", ex, n)); }
+         { String s(m.c_str()); s += s; RChk(SameS(s, m + m), "sweep", vh::fmt("+=self at length %u", n)); String t(m.c_str()); t += t() + n / 2; RChk(SameS(t, m + m.substr(n / 2)), "sweep", vh::fmt("+=own pointer at length %u", n)); String u(m.c_str()); (void)u.InsertChars(n / 3, u()); RChk(SameS(u, m.substr(0, n / 3) + m + m.substr(n / 3)), "sweep", vh::fmt("InsertChars(own buffer) at length %u", n)); }
+         { String s(m.c_str()); uint8 * b = (uint8 *)malloc(n + 1); s.FlattenToBytes(b, n + 1); String t; RChk(s.FlattenedSize() == n + 1 && b[n] == 0 && t.UnflattenFromBytes(b, n + 1).IsOK() && t == s, "sweep", vh::fmt("flatten round trip at length %u", n)); if (n) { String u; RChk(u.UnflattenFromBytes(b, n).IsError(), "F18", vh::fmt("unterminated %u bytes accepted", n)); } free(b); }
+      }
+   }
+   vh::distinct(1); vh::distinct(2); vh::distinct(3); vh::distinct(4); vh::distinct(5);
+}
+
+int main(int argc, char ** argv)
+{
+   CompleteSetupSystem css;
+   vh::init(argc, argv);
+   vh::Ctx & c = vh::ctx();
+   std::string mode = vh::opt("mode", "model");
+   if (mode == "regress") { Regress(); return vh::finish(); }
+   for (long k = c.from; k < c.from + c.cases; k++) {
+      vh::begin_case(k);
+      RunCase(k, vh::case_seed(c.seed, 17, (uint64_t)k));
+   }
+   return vh::finish();
+}
